@@ -129,13 +129,13 @@ class C12(Prop):
         for a in CHAINS:
             for b in CHAINS + BAD_NAMES[:2]:
                 yield mk('c12.select', a + ',' + b, tag='select')
-        for _ in range(2000 if big else 200):
+        for _ in range(20000 if big else 400):
             yield mk('c12.select', self.hist(rng, rng.choice(CHAINS + BAD_NAMES)), tag='select')
 
     def gen_conv(self, rng, big):
         for chain in CHAINS:
             for t in TMPL:
-                for p in self.payloads(rng, PLEN[t], 60 if big else 8):
+                for p in self.payloads(rng, PLEN[t], 600 if big else 20):
                     yield mk('c12.conv', self.hist(rng, chain), t, p.hex(), tag='conv')
                 # payloads of other lengths placed in the template (not standard: refused or re-read)
                 for n in (0, 1, 19, 20, 21, 31, 32, 33, 40, 75):
@@ -146,7 +146,7 @@ class C12(Prop):
 
     def gen_scripts(self, rng, big):
         flags = [('1', '1'), ('1', '0'), ('0', '1'), ('0', '0')]
-        for chain in CHAINS:
+        for chain in CHAINS * (6 if big else 1):
             h20 = bytes(rng.randrange(256) for _ in range(20))
             h32 = bytes(rng.randrange(256) for _ in range(32))
             scripts = []
@@ -178,7 +178,7 @@ class C12(Prop):
                             scripts.append(s[:pos] + bytes([x]) + s[pos + 1:])
             scripts += [b'', b'\x00', b'\x4c', b'\x4d\x01', b'\x4e\x01\x00\x00', b'\x6a', b'\x6a\x14' + h20]
             scripts += [bytes(rng.randrange(256) for _ in range(rng.choice([1, 2, 22, 23, 25, 34, 35, 67])))
-                        for _ in range(400 if big else 40)]
+                        for _ in range(2000 if big else 60)]
             for s in scripts:
                 yield mk('c12.fromspk', self.hist(rng, chain), s.hex(), tag='scripts')
                 for nc, bare in flags:
@@ -194,7 +194,7 @@ class C12(Prop):
     def gen_cross(self, rng, big):
         for a in CHAINS:
             for t in TMPL:
-                for p in self.payloads(rng, PLEN[t], 40 if big else 4):
+                for p in self.payloads(rng, PLEN[t], 300 if big else 6):
                     text = self.addr_text(a, t, p)
                     for b in CHAINS:
                         yield mk('c12.parse', self.hist(rng, b), tx(text), tag='cross' if a != b else 'own')
@@ -244,7 +244,7 @@ class C12(Prop):
         for s in fixed:
             for chain in CHAINS:
                 yield mk('c12.parse', chain, tx(s), tag='strings')
-        for chain in CHAINS:
+        for chain in CHAINS * (4 if big else 1):
             for t in TMPL:
                 p = bytes(rng.randrange(256) for _ in range(PLEN[t]))
                 s = self.addr_text(chain, t, p)
@@ -260,7 +260,7 @@ class C12(Prop):
                 for m in muts:
                     yield mk('c12.parse', chain, tx(m), tag='mutated')
         pool = B58 + B32 + '0OIl 1-_é€\t'
-        for _ in range(3000 if big else 300):
+        for _ in range(60000 if big else 600):
             n = rng.choice([0, 1, 2, 5, 14, 26, 34, 35, 42, 62, 90, 91, 120])
             s = ''.join(rng.choice(pool) for _ in range(n))
             if rng.random() < 0.5:
